@@ -65,9 +65,29 @@ def generate(rng, tier):
         for i in range(8):
             cases.append(session_case(rng, special_key(rng), rbytes(rng, 1 << 20), "1MiB-stream"))
     cases += sibling_key_cases(rng, "v")
+    cases += typed_at_every_position_cases(rng, "v")
     if tier == "thorough":
         cases += step_table_cases(rng, "v")
     return cases
+
+def typed_at_every_position_cases(rng, exp):
+    """the typed header helpers and the Read/Write wrappers at every key position: the stream is advanced by p raw bytes
+    first (p = 0 .. 2L), then a server header, a client header, and their decryption on the receiving half"""
+    import pyhdr
+    out = []
+    K = rbytes(rng, 40)
+    L = 40 if exp == "v" else 20
+    for p in range(0, 2 * L + 1):
+        for first in ("es", "ec"):
+            ops = ["e:" + hx(rbytes(rng, p)), "d:" + hx(rbytes(rng, p))]
+            hs = ["es:%d:%d" % (rng.getrandbits(16), rng.getrandbits(16)), "ec:%d:%d" % (rng.getrandbits(16), rng.getrandbits(32)),
+                  "ws:%d:%d:-" % (rng.getrandbits(16), rng.getrandbits(16)), "wc:%d:%d:A3,A9" % (rng.getrandbits(16), rng.getrandbits(32))]
+            ds = ["ds:" + rbytes(rng, 4).hex(), "dc:" + rbytes(rng, 6).hex(), "rs:D" + rbytes(rng, 4).hex(), "rc:D" + rbytes(rng, 6).hex()]
+            if first == "ec": hs = hs[::-1]; ds = ds[::-1]
+            ops += hs + ds + ["pr"]
+            out.append(Case("hdr %s s %s %s" % (exp, K.hex(), " ".join(ops)), "typed-helpers-at-position-%s" % ("0..L" if p <= L else "L..2L"),
+                            pyhdr.expected_line(exp, "s", K, ops), dict(n=1)))
+    return out
 
 def sibling_key_cases(rng, exp):
     """objects built one after the other on one thread from session keys that differ in a single byte, at each of the
